@@ -71,6 +71,27 @@ pub enum QOp {
     KeyCompare(String),
     KeyViews,
     CloneEq,
+    /// typed accessors with a user-declared key (`Build_Id`): insert / get / contains / remove
+    UserTyped(u8, String),
+}
+
+/// A typed qualifier declared outside the library, with a mixed-case key.
+pub struct BuildId<'a>(pub &'a str);
+
+impl purl::qualifiers::well_known::KnownQualifierKey for BuildId<'_> {
+    const KEY: &'static str = "Build_Id";
+}
+
+impl<'a> From<&'a str> for BuildId<'a> {
+    fn from(s: &'a str) -> Self {
+        BuildId(s)
+    }
+}
+
+impl<'a> From<BuildId<'a>> for SmallString {
+    fn from(b: BuildId<'a>) -> Self {
+        SmallString::from(b.0)
+    }
 }
 
 #[derive(Clone, Debug, Serialize, Deserialize)]
@@ -426,7 +447,13 @@ fn step(q: &mut Qualifiers, m: &mut Model, op: &QOp) -> Result<(), String> {
             }
         },
         QOp::TryFromIter(pairs) => {
+            // the same pairs through an iterator whose size hint has no useful upper bound
+            let loose = guard(|| Qualifiers::try_from_iter((0..usize::MAX).map_while(|i| pairs.get(i).map(|(k, v)| (k.as_str(), v.as_str())))))
+                .map_err(|m| format!("{what}: try_from_iter over an iterator with size_hint (0, Some(usize::MAX)) panicked: {m}"))?;
             let r = Qualifiers::try_from_iter(pairs.iter().map(|(k, v)| (k.as_str(), v.as_str())));
+            if loose.is_ok() != r.is_ok() || loose.as_ref().ok().map(content) != r.as_ref().ok().map(content) {
+                return Err(format!("{what}: the result depends on the iterator's size hint"));
+            }
             let mut nm = Model::new();
             let mut ok = true;
             for (k, v) in pairs {
@@ -458,6 +485,25 @@ fn step(q: &mut Qualifiers, m: &mut Model, op: &QOp) -> Result<(), String> {
         QOp::RepoRemove => {
             q.remove_typed::<RepositoryUrl>();
             m.remove("repository_url");
+        },
+        QOp::UserTyped(which, v) => {
+            // a typed key declared by the user, in mixed case: typed accessors must agree with the plain ones
+            match which % 4 {
+                0 => {
+                    q.insert_typed(BuildId(v.as_str()));
+                    m.insert("build_id".into(), v.clone());
+                },
+                1 => {
+                    let got = q.get_typed::<BuildId>().map(|b| b.0.to_string());
+                    expect_eq!(got, m.get("build_id").cloned(), what);
+                    expect_eq!(q.try_get_typed::<BuildId>().ok().flatten().map(|b| b.0.to_string()), m.get("build_id").cloned(), what);
+                },
+                2 => expect_eq!(q.contains_typed::<BuildId>(), m.contains_key("build_id"), what),
+                _ => {
+                    q.remove_typed::<BuildId>();
+                    m.remove("build_id");
+                },
+            }
         },
         QOp::ChecksumTryInsert(entries) => {
             let r = q.try_insert_typed(make_checksum(entries)).map_err(|e| crate::api::parse_err_kind(&e));
@@ -748,6 +794,9 @@ fn universe_ops() -> Vec<QOp> {
     v.push(QOp::ChecksumTryInsert(vec![("a".into(), CkVal::Raw("0".into()))]));
     v.push(QOp::KeyViews);
     v.push(QOp::CloneEq);
+    for w in 0..4u8 {
+        v.push(QOp::UserTyped(w, "x".into()));
+    }
     v
 }
 
@@ -874,13 +923,18 @@ fn gqop() -> BoxedStrategy<QOp> {
         2 => prop_oneof![gk(), gtext(0)].prop_map(QOp::KeyCompare),
         1 => Just(QOp::KeyViews),
         1 => Just(QOp::CloneEq),
+        2 => (any::<u8>(), gv()).prop_map(|(w, v)| QOp::UserTyped(w, v)),
     ]
     .boxed()
 }
 
 fn gcase() -> BoxedStrategy<QCase> {
     (
-        proptest::collection::vec((gk(), gv()), 0..=4),
+        prop_oneof![
+            9 => proptest::collection::vec((gk(), gv()), 0..=4),
+            // a collection that already holds more than 16 / 32 entries
+            1 => (17usize..=40, gv()).prop_map(|(n, v)| (0..n).map(|i| (format!("q{i:02}"), v.clone())).collect::<Vec<_>>()),
+        ],
         proptest::collection::vec(gqop(), 0..=30),
         proptest::collection::vec(any::<u8>(), 0..=24),
     )
